@@ -13,7 +13,8 @@
    build of the stress program is the evidence for that. *)
 From Coq Require Import NArith Arith Bool List Lia.
 From PcoreV Require Import Model.Conc Model.ConcLazy Model.ConcReg Proofs.ConcProofs Proofs.ConcLockProofs
-  Proofs.ConcLiveProofs Proofs.ConcLazyProofs Proofs.ConcRegProofs.
+  Proofs.ConcLiveProofs Proofs.ConcLazyProofs Proofs.ConcRegProofs Model.ConcDisc Proofs.ConcDiscProofs
+  Proofs.ConcDefineProofs.
 Import ListNotations.
 
 (* ---- no_fault ------------------------------------------------------------------------------------------ *)
@@ -310,6 +311,89 @@ Print Assumptions C13_load_during_instantiate_refuted.
 (* What is proved about such loads instead: C13_no_fault (no error), C13_agreement (whoever gets a value gets the
    same one), C13_instantiate_once.  The answer "not found" itself is reported by the harness on every run as
    KNOWN-FINDING (sequential-consistency / load-during-instantiate). *)
+
+(* ---- the definers of a name agree ---------------------------------------------------------------------------- *)
+
+(* Every Define of name n in loader l that is accepted - by any thread, under any schedule, whatever entry without
+   value (the cached miss of an earlier px.Load, the mark of an instantiation) the name held - is handed one and
+   the same value, the value bound to n in l, and the definer's own value equals it (identical, or equal by
+   px.Equality): two different definitions are never both accepted.  (basicLoader.SetEntry is ONE critical section;
+   seeded change C13-m6 splits look-up and update, and two definitions of a name that holds a cached miss are both
+   told that their value is bound.) *)
+Theorem C13_definers_agree :
+  forall (cfg : config) (p : prog) (s : sched) l n t1 t2 v1 v2 x1 x2,
+    In (EvRes t1 (ODefine l n v1) (RDefined x1)) (trace cfg p s) ->
+    In (EvRes t2 (ODefine l n v2) (RDefined x2)) (trace cfg p s) ->
+    x1 = x2 /\ veq x1 v1 = true /\ veq x1 v2 = true.
+Proof. exact definers_agree. Qed.
+Print Assumptions C13_definers_agree.
+
+Theorem C13_defined_stays_bound :
+  forall (cfg : config) (p : prog) (s s' : sched) t l n v x,
+    In (EvRes t (ODefine l n v) (RDefined x)) (trace cfg p s) ->
+    ents (st_sh (exec cfg p (s ++ s'))) l n = Some (Some x).
+Proof. exact defined_stays_bound. Qed.
+Print Assumptions C13_defined_stays_bound.
+
+(* a missed load first, then two different definitions that overlap: one is accepted, the other refused *)
+Example C13_definers_agree_nonvacuous :
+  let tr := trace cfgA [[OLoad 1 0%N; ODefine 1 0%N v0]; [ODefine 1 0%N v1]] [0; 0; 0; 1; 0] in
+  results_of 0 tr = [RFound None; RErr] /\ results_of 1 tr = [RDefined v1].
+Proof. vm_compute. auto. Qed.
+
+(* ---- Discover with a predicate that asks the loader (Model/ConcDisc.v) ----------------------------------------- *)
+
+(* The predicate of a Discover is user code; it may ask the loader that is being discovered about the name it is
+   offered, while other threads define names in the same loaders.  In the model of the code (CbOutside: the bound
+   keys are copied under the read lock, the predicate runs with no lock held) a thread that is parked anywhere -
+   also inside a predicate - holds no lock, no writer ever waits, and therefore: while a thread has operations left
+   some thread can move (in fact every unfinished one), and every schedule can be continued to one in which all
+   operations have returned.  For EVERY loader tree, program, number of threads, schedule. *)
+Theorem C13_discover_no_deadlock :
+  forall (cfg : config) (p : dprog) (s : sched),
+    dall_done (dexec CbOutside cfg p s) (length p) = false ->
+    exists t, t < length p /\ denabled CbOutside cfg (length p) (dexec CbOutside cfg p s) t = true.
+Proof. exact disc_no_deadlock. Qed.
+Print Assumptions C13_discover_no_deadlock.
+
+Theorem C13_discover_every_operation_returns :
+  forall (cfg : config) (p : dprog) (s : sched),
+    exists s', dall_done (dexec CbOutside cfg p (s ++ s')) (length p) = true.
+Proof. exact disc_can_complete. Qed.
+Print Assumptions C13_discover_every_operation_returns.
+
+(* The statement is about where the predicate is called: with the predicate called inside the read lock (seeded
+   change C13-m5; sync.RWMutex keeps readers out while a writer waits, also a reader that holds the lock already)
+   [Define(l1,Na); Discover(l1, asks, [Na])] || [Define(l1,Nb)] under schedule [0;0;1] ends with both threads blocked. *)
+Theorem C13_callback_under_lock_refuted :
+  exists (cfg : config) (p : dprog) (s : sched),
+    let st := dexec CbUnderLock cfg p s in
+    dall_done st (length p) = false /\ forall t, t < length p -> denabled CbUnderLock cfg (length p) st t = false.
+Proof.
+  exists cfg_sa, prog_m5, sched_m5. destruct callback_under_lock_deadlocks as (H0 & H1 & H2).
+  split; [exact H0|]. intros t Ht. destruct t as [|[|t]]; [exact H1|exact H2|cbn in Ht; lia].
+Qed.
+Print Assumptions C13_callback_under_lock_refuted.
+
+Example C13_discover_nonvacuous :
+  let st := dexec CbOutside cfg_sa prog_m5 sched_m5 in
+  denabled CbOutside cfg_sa 2 st 0 = true /\
+  dresults_of 0 (ds_log (dexec CbOutside cfg_sa prog_m5 (sched_m5 ++ [0]))) = [DDefined dv0; DNames [0%N]].
+Proof. exact callback_outside_moves. Qed.
+
+(* Open finding discover-shadowed-name: a name that is bound in two loaders of one chain - in the descendant before
+   the Discover starts, in the ancestor while the Discover is parked between the ancestor's part and the offer of
+   that name - is returned by neither part (every sequential order returns Na and Nb). *)
+Definition C13_statement_discover_bound_before : Prop :=
+  forall (cfg : config) (p : dprog) (s : sched),
+    dall_done (dexec CbOutside cfg p s) (length p) = true ->
+    dresults_of 0 (ds_log (dexec CbOutside cfg p s)) <> [DBool false; DDefined dv5; DDefined dv0; DNames [1%N]].
+Theorem C13_discover_shadowed_name_refuted : ~ C13_statement_discover_bound_before.
+Proof.
+  intros H. destruct discover_shadowed_name_missed as (Hd & H0 & _).
+  exact (H cfg_sab prog_shadow sched_shadow Hd H0).
+Qed.
+Print Assumptions C13_discover_shadowed_name_refuted.
 
 (* ---- the hypothesis of no_fault is needed ------------------------------------------------------------------ *)
 
